@@ -81,7 +81,9 @@ def build_case(rec, pool, variant, status_code=None):
     c.payloads = payloads
     # (the fifth: characters with a meaning in regular expressions / format strings / shells, unbalanced)
     private = ["priv-KEY/with+chars=and space", "s3cr3t&key?x=1#frag%41", "0b9f5c3e-7d1a-4c2b-9e8f-6a5d4c3b2a1f", "ünï-çødé/ключ+鍵",
-               "Zk(9pX[secret*7741  +x{2}\\d|%s$(id)`"][(variant + rec["n"] + 2 * rec["fault"]["at"] + len(rec["auth"]) + len(rec["fault"]["kind"])) % 5]
+               "Zk(9pX[secret*7741  +x{2}\\d|%s$(id)`",
+               # (the sixth: a key no longer than what a "show the last four characters" mask leaves visible)
+               "qZ7$"][(variant + rec["n"] + 2 * rec["fault"]["at"] + len(rec["auth"]) + len(rec["fault"]["kind"])) % 6]
     c.sc = fa.Scenario(project="5f1a2b3c4d5e6f7a8b9c%04d" % (variant % 10000), cluster="Cluster%d" % (variant % 9),
                        conn_hosts=[hp for _, hp in c.names], payloads=payloads, auth=rec["auth"], faults=faults,
                        public=("pubKEY%d" % variant) if variant % 2 == 0 else ("mdb_sa_id_%024x" % variant),
@@ -119,6 +121,15 @@ def build_case(rec, pool, variant, status_code=None):
             else:
                 os.symlink(os.path.join(d, "missing-dir", "x"), p)
         c.prepare = prep
+    # the name given to --outputFile: plain, or with characters that mean something to a format string
+    c.out_name = "out.log"
+    if c.prepare is None and rec["cli"]:
+        c.out_name = ["out.log", "cpu-100%.red%d.log", "out.log", "out %s.log"][variant % 4]
+        if fk == "none" and variant % 4 == 0:
+            # the bare <out> (created by the tool, never written in Atlas mode) is a link to a device that accepts no data
+            def prepb(d):
+                os.symlink("/dev/full", os.path.join(d, "out.log"))
+            c.prepare = prepb
     return c
 
 
@@ -160,7 +171,7 @@ def make_tzif(path, transition, off_before, off_after):
 def run_case(b, c, workdir, flags=(), key_by="env", start=None, end=None, encrypt=False, extra_env=None):
     if c.rec["cli"]:
         obs = al.run_atlas_cli(b, c.sc, workdir, flags=flags, key_by=key_by, start=start, end=end, prepare=c.prepare, encrypt=encrypt or c.encrypt,
-                               extra_env=extra_env)
+                               extra_env=extra_env, out_name=getattr(c, "out_name", "out.log"))
         obs["level"] = "cli"
     else:
         obs = al.run_atlas_lib(b, c.sc, workdir, start=start or 1700000000, end=end or 1700600000)
@@ -192,7 +203,8 @@ def key_forms(private, public):
     # JSON / Go %q escaped form
     forms["json-escaped"] = json.dumps(private)[1:-1]
     forms["json-ascii-escaped"] = json.dumps(private, ensure_ascii=True)[1:-1]
-    return {k: v for k, v in forms.items() if len(v) >= 6}
+    # short encodings are dropped (chance hits) - except the key itself, which is searched for verbatim from four characters on
+    return {k: v for k, v in forms.items() if len(v) >= 6 or (k == "verbatim" and len(v) >= 4)}
 
 
 def scan_for_key(c, obs):
